@@ -235,7 +235,8 @@ def run(ctx):
                 ctx.ob("R1", inst, True, how=f"all {ndis} rejection point(s) of the later site are infeasible there (R2 table)")
                 continue
             guards = sorted(r.key for r in undis)
-            h = hashlib.sha1("|".join(guards).encode()).hexdigest()[:6]
+            # ranks of locals ($3) shift when an unrelated local is added to the function: hash the guards without them
+            h = hashlib.sha1("|".join(re.sub(r"\$\d+", "$", g) for g in guards).encode()).hexdigest()[:6]
             ctx.ob("R1", inst, False, how="forward may-analysis: M reaches C")
             ctx.violation(
                 "R1", f, c.node,
